@@ -448,3 +448,15 @@ _c19_base = contracts
 
 def contracts():
     return _c19_base() + [push_pop_contract()]
+
+
+# _state_push/_state_pop and every read go through get_value_generator / the class parameter table
+_c19_base2 = contracts
+
+
+def contracts():
+    from contracts import c13 as _c13
+    extra = [_c13.get_value_generator_dynamic_contract(), _c13.get_value_generator_contract("plain")]
+    for c in extra:
+        c.prop = PROP
+    return _c19_base2() + extra
